@@ -185,10 +185,17 @@ fn uppercase(cu: u32) -> u32 {
         } else {
             TO_UPPERCASE.get(index).expect("Invalid index")
         };
-        fr.apply(cu)
+        legacy_canonical(cu, fr.apply(cu))
     } else {
         cu
     }
+}
+
+/// ES Canonicalize without the unicode flag: a non-ASCII character whose upper case is ASCII
+/// stays itself (so that e.g. /[^\W]/i does not start matching U+017F).
+#[inline(always)]
+fn legacy_canonical(cu: u32, upper: u32) -> u32 {
+    if cu >= 128 && upper < 128 { cu } else { upper }
 }
 
 // Add all folded characters in the given interval to the given code point set.
@@ -311,7 +318,7 @@ pub(crate) fn unfold_uppercase_char(c: u32) -> Vec<u32> {
             continue;
         }
         for cp in tr.transformed_from().codepoints() {
-            let tcp = tr.apply(cp);
+            let tcp = legacy_canonical(cp, tr.apply(cp));
             if tcp == fcp {
                 res.push(cp);
             }
